@@ -195,6 +195,10 @@ class Check(common.Check):
                     steps.append(self.gen_bind(G))
                 elif r < 0.80:
                     steps.append(self.gen_sync(G) if (G.random() < 0.7 and not is_fn) else self.gen_clump(G))
+                elif r < 0.84:
+                    # send_msg with a bundle-shaped completion message (numeric latency)
+                    L = G.choice([{'f': '1/4'}, {'f': '1/8'}, {'f': '0'}, 1, {'f': '1/1024'}])
+                    steps.append(['mb', [{'s': '/d_recv'}, G.choice([0, 7]), [L, self.gen_msg(G, 1)]]])
                 elif r < 0.90:
                     # the same bundle object sent, a wait, sent again
                     b = self.gen_bundle(G, deep=True)
@@ -232,6 +236,8 @@ class Check(common.Check):
         """(kind, value) of the send with index k of routine `who` ('B' with None = previous 'B')"""
         steps = case['main'] if who == 'main' else case['routines'][who]['steps']
         kind, val = steps[k][0], steps[k][1]
+        if kind == 'mb':                 # send_msg whose last argument is a bundle-shaped completion message
+            return 'm', val
         if kind == 'bind':
             # the proxy sends ONE bundle [server.latency, msg, ...] when the `with` block ends
             return 'b', [steps[k][1]] + list(steps[k][2])
@@ -623,6 +629,19 @@ class Check(common.Check):
                     return v
                 continue
             kind, val = self.send_value(case, rec['who'], rec['k'])
+            if st[0] == 'mb':
+                # the completion bundle travels as a blob; it is stamped like a bundle sent at the same instant
+                try:
+                    pkt = osc10.read_packet(bytes.fromhex(rec['out']))
+                    blobs = [x[1] for x in pkt[2] if x[0] == 'b']
+                    inner = osc10.read_packet(blobs[-1])
+                except Exception as e:
+                    return {'what': f'{where}: message with a completion bundle gave {rec["out"][:40]} ({e})',
+                            'signature': 'c07:completion'}
+                v = self.check_rt_packet(inner, val[-1], base, off, where + '/completion bundle')
+                if v:
+                    return {'what': v, 'signature': 'c07:rt-stamp'}
+                continue
             if kind == 'm':
                 continue
             ok = self.valid(val)
